@@ -188,9 +188,9 @@ func c06Scenario(c *choice.Ctx, rep *report.R, prop string, nCalls, depth int) {
 			started = started || cl.started
 		}
 		if started {
-			menu = append(menu, event{name: "advance2s", do: func() { time.Sleep(2 * time.Second) }})
-			menu = append(menu, event{name: "advance6s", do: func() { time.Sleep(6 * time.Second) }})
-			menu = append(menu, event{name: "advance10s", do: func() { time.Sleep(10 * time.Second) }})
+			menu = append(menu, event{name: "advance2s", do: func() { hsleep(2 * time.Second) }})
+			menu = append(menu, event{name: "advance6s", do: func() { hsleep(6 * time.Second) }})
+			menu = append(menu, event{name: "advance10s", do: func() { hsleep(10 * time.Second) }})
 		}
 		ev := pick(c, menu)
 		if ev == nil {
@@ -218,7 +218,7 @@ func c06Scenario(c *choice.Ctx, rep *report.R, prop string, nCalls, depth int) {
 	}
 	tr.Close()
 	wait()
-	time.Sleep(7 * time.Second) // let abandoned workers hit their I/O deadline
+	hsleep(7 * time.Second) // let abandoned workers hit their I/O deadline
 	wait()
 	check()
 	for _, v := range own.Audit() {
